@@ -206,9 +206,11 @@ def find(
             # These modify the file_platform instance, but we throw away
             # the active nodes after processing is complete.
             for include in e["include_files"]:
+                # Search relative to the directory of the physical file, as for
+                # the file's own includes (the entry may name it through a link).
                 include_file = file_platform.find_include_file(
                     include,
-                    os.path.dirname(e["file"]),
+                    os.path.dirname(state._get_realpath(e["file"])),
                 )
                 if include_file:
                     state.insert_file(include_file)
